@@ -44,7 +44,7 @@ package nfs
 //@ define TXMODS held, lastst, curop, freshinum, wroteinum, cphase, abits, dirtyinum, cache.Cslot.Obj, map[uint64]*inode.Inode
 //@ define SHRINKMODS muheld, inode.Inode.ShrinkSize, []uint64@inode.Inode.blks, []uint64@alloctxn.AllocTxn.freeBnums, alloctxn.AllocTxn.freeBnums, buf.Buf.dirty, []uint8@buf.Buf.Data
 //@ define FILEMODS inode.Inode.Size, inode.Inode.ShrinkSize, inode.Inode.Atime, inode.Inode.Mtime, inode.Inode.Kind, inode.Inode.Nlink, inode.Inode.Gen, inode.Inode.Inum, inode.Inode.Dcache, []uint64@inode.Inode.blks, alloctxn.AllocTxn.allocBnums, []uint64@alloctxn.AllocTxn.allocBnums, alloctxn.AllocTxn.freeBnums, []uint64@alloctxn.AllocTxn.freeBnums, alloctxn.AllocTxn.allocInums, []uint64@alloctxn.AllocTxn.allocInums, alloctxn.AllocTxn.freeInums, []uint64@alloctxn.AllocTxn.freeInums, buf.Buf.dirty, []uint8@buf.Buf.Data
-//@ define DIRMODS dcache.Dcache.Lastoff, nfstypes.Entry3, cell:*nfstypes.Entry3, nfstypes.Entryplus3, cell:*nfstypes.Entryplus3, map[string]dcache.Dentry, emitted, emitany, emitlast
+//@ define DIRMODS dcache.Dcache.Lastoff, nfstypes.Entry3, cell:*nfstypes.Entry3, nfstypes.Entryplus3, cell:*nfstypes.Entryplus3, map[string]dcache.Dentry, emitted, emitany, emitlast, lastcookie, lastfileid, lastname
 //@ define DIRALLOC dir.dirEnt, dcache.Dcache, map[string]dcache.Dentry, nfstypes.Entry3, nfstypes.Entryplus3
 // a transaction that may be ended either way: open, and every held inode is in sync with it
 //@ specfunc endable(op *fstxn.FsTxn) = txOpen(op) && (forall i uint64 :: held[i] ==> !dirtyinum[i])
@@ -242,6 +242,60 @@ package nfs
 //@   ensures [H3-handle] result.Status == 0 ==> len(result.Resok.Object.Data) == 16 && le64(result.Resok.Object.Data, 0) == old(dnames)[fhIno(args.What.Dir)][args.What.Name] && uint64(result.Resok.Obj_attributes.Attributes.Fileid) == le64(result.Resok.Object.Data, 0) @C08 @C02
 //@   ensures [L2-quiet] rpcPost(nfs) @C03 @C06 @C14
 
+
+// C13: READDIR / READDIRPLUS. The list builders pass every slot of the
+// directory page to the reply with cookie = offset of the next slot (E2); the
+// page itself is sound, complete up to the last cookie and makes progress
+// (E1, E3, E5 of dir.ApplyEnts / dir.Apply).
+//@ spec Readdir3
+//@   props C13 C11 C06 C10 C02
+//@   requires dirReady(dip, op) && dip.Kind == 2
+//@   requires [E1-cookie] uint64(start) & 127 == 0 @C13 @C11
+//@   preserves [allocInv] allocInv() @C15 @C04
+//@   allocates buf.Buf, marshal.Enc, marshal.Dec, cell:uint64, []uint8, dir.dirEnt, nfstypes.Entry3, cell:*nfstypes.Entry3
+//@   modifies dip.blks[*], dirtyinum, wroteinum, abits, op.Atxn.allocBnums, []uint64@alloctxn.AllocTxn.allocBnums, []uint8@buf.Buf.Data, buf.Buf.dirty, nfstypes.Entry3, cell:*nfstypes.Entry3, map[string]dcache.Dentry, emitted, emitany, emitlast, lastcookie, lastfileid, lastname
+//@   ensures [ibits-same] abits[theIalloc] == old(abits)[theIalloc] @C05
+//@   ensures [E1-sound] emitSound(dip, uint64(start), dip.Size) @C13
+//@   ensures [E3-complete] emitComplete(dip, uint64(start), ite(result.Eof, dip.Size, emitlast + 128)) @C13
+//@   ensures [E5-progress] !result.Eof ==> emitany && emitlast >= uint64(start) && emitlast < dip.Size @C13 @C06
+//@   cbensures [E2-entry] lastcookie == off + 128 && lastfileid == inum && lastname == name @C13
+//@   ensures dirDone(dip, op) && dip.Size == old(dip.Size) && dip.Kind == 2
+
+//@ spec Ls3
+//@   props C13 C06 C03 C11 C14 C10 C02
+//@   requires dirReady(dip, op) && dip.Kind == 2
+//@   requires [E1-cookie] uint64(start) & 127 == 0 @C13 @C11
+//@   preserves [allocInv] allocInv() @C15 @C04
+//@   allocates buf.Buf, marshal.Enc, marshal.Dec, cell:uint64, []uint8, dir.dirEnt, nfstypes.Entryplus3, cell:*nfstypes.Entryplus3, cache.Cslot, inode.Inode, []uint64, fh.Fh
+//@   modifies dip.blks[*], dirtyinum, wroteinum, abits, op.Atxn.allocBnums, []uint64@alloctxn.AllocTxn.allocBnums, []uint8@buf.Buf.Data, buf.Buf.dirty, nfstypes.Entryplus3, cell:*nfstypes.Entryplus3, emitted, emitany, emitlast, lastcookie, lastfileid, lastname, cache.Cslot.Obj, map[uint64]*inode.Inode, held
+//@   ensures [ibits-same] abits[theIalloc] == old(abits)[theIalloc] @C05
+//@   ensures [E1-sound] emitSound(dip, uint64(start), dip.Size) @C13
+//@   ensures [E3-complete] emitComplete(dip, uint64(start), ite(result.Eof, dip.Size, emitlast + 128)) @C13
+//@   ensures [E5-progress] !result.Eof ==> emitany && emitlast >= uint64(start) && emitlast < dip.Size @C13 @C06
+//@   cbensures [E2-entry] lastcookie == off + 128 && lastfileid == inum && lastname == name @C13
+//@   ensures [L2-heldsame] held == old(held) @C03 @C06
+//@   ensures dirDone(dip, op) && dip.Size == old(dip.Size) && dip.Kind == 2
+
+//@ spec (*Nfs).NFSPROC3_READDIR
+//@   props C01 C02 C03 C06 C08 C09 C10 C11 C13 C14
+//@   requires rpcPre(nfs)
+//@   allocates $TXALLOC, $DIRALLOC, nfstypes.READDIR3res, cell:*nfstypes.Entry3
+//@   modifies $TXMODS, $FILEMODS, $DIRMODS
+//@   ensures [R2-durable] result.Status == 0 ==> lastst == 1 @C01
+//@   ensures [A1-aborted] result.Status != 0 ==> lastst == 3 || lastst == 4 @C09
+//@   ensures [E1-badcookie] uint64(args.Cookie) & 127 != 0 ==> result.Status != 0 @C13 @C11
+//@   ensures [E5-progress] result.Status == 0 && !result.Resok.Reply.Eof ==> emitany && emitlast >= uint64(args.Cookie) @C13 @C06
+//@   ensures [L2-quiet] rpcPost(nfs) @C03 @C06 @C14
+
+//@ spec (*Nfs).NFSPROC3_READDIRPLUS
+//@   props C01 C02 C03 C06 C08 C09 C10 C11 C13 C14
+//@   requires rpcPre(nfs)
+//@   allocates $TXALLOC, $DIRALLOC, nfstypes.READDIRPLUS3res, cell:*nfstypes.Entryplus3, fh.Fh, struct:struct{}
+//@   modifies $TXMODS, $FILEMODS, $DIRMODS
+//@   ensures [R2-durable] result.Status == 0 ==> lastst == 1 @C01
+//@   ensures [A1-aborted] result.Status != 0 ==> lastst == 3 || lastst == 4 @C09
+//@   ensures [E1-badcookie] uint64(args.Cookie) & 127 != 0 ==> result.Status != 0 @C13 @C11
+//@   ensures [L2-quiet] rpcPost(nfs) @C03 @C06 @C14
 
 // F1 (C05), I3 (C04): dropping the last link frees the inode's blocks and the
 // inode itself in the same transaction.
